@@ -12,7 +12,9 @@ SKELETONS_Q = ['C', 'CO', 'CCC', 'C(C)C', 'C1CC1', 'CCl', 'BrCC', '[CH2]O[CH2]',
                # aliphatic atom directly followed by an aromatic one (two letters that spell an element), sibling branches,
                # ring bonds written with a bond symbol at the opening / closing digit, slash after a closed branch
                'Cn1cccc1', 'Sc1ccccc1', 'Cs1cccc1', 'CC(C)(CO)', 'C(C)(C)(C)', 'C=1CC1', 'C1CCC=1', 'C=1CCCC=1', 'CC(C)/C=C/F',
-               '[#A]=1[#B][#C]1', '[#A]([#B])([#C])']
+               '[#A]=1[#B][#C]1', '[#A]([#B])([#C])',
+               # S before an aromatic n; two %nn ring ids directly after each other on one atom
+               'CSn1cccc1', 'C%10CCCC%10%11CCCC%11']
 SKELETONS_T = SKELETONS_Q + ['CC(C)(C)C', 'C1CC2CC12', 'OC(=O)c1ccccc1', 'C(C(C)C)C', 'ClC(Br)F', 'C#CC',
                              'C%11CC%12CC%11%12', '[#A]=[#B]', '[#A]1[#B]2[#C]1[#D]2', 'C(=O)([O-])C',
                              '[NH2+]=C(N)N', 'S(=O)(=O)(C)C', 'P(C)(C)C', 'C/C=C\\C', 'Cc1ccc(C)cc1',
